@@ -9,7 +9,7 @@ from ..model import AnalysisError, attr_path, dotted, expand_path, local_aliases
 from ..report import Check
 from .c09 import _lazy_auxdata
 from .codecs import codec_facts
-from .purity import codec_state
+from .purity import no_result_caches, value_passthrough, codec_state
 
 RULES = {
     "R14.1": "typestate who-may-write: _data and _lazy_container are assigned only in __init__, "
@@ -45,7 +45,9 @@ def run(chk: Check) -> None:
         if o.rule == "R09.4":
             o.rule = "R14.3"
     _unknown(chk)
+    _data_readers(chk)
     codec_state(chk, "R14.5", ("auxdata", "serialization"))
+    no_result_caches(chk, "R14.5")
 
 
 def _typestate(chk: Check, ad) -> None:
@@ -344,3 +346,44 @@ def _unknown(chk: Check) -> None:
     ud = chk.repo.cls("UnknownData")
     chk.ob("R14.4", "UnknownData:is-bytes", ud.is_subclass_of("builtins.bytes"), ud.loc(),
            "UnknownData must remain a bytes subclass (it is written with out.write)", 1)
+
+
+def _data_readers(chk: Check) -> None:
+    """R14.6: reading .data drops the raw bytes (the table will be re-encoded on save), so
+    inside the package only AuxData._to_protobuf's re-encoding branch and __repr__ may read it"""
+    repo = chk.repo
+    from ..types import TypeEnv
+    types = TypeEnv(repo)
+    n = 0
+    for f in repo.all_functions():
+        for x in walk_no_nested(f.node):
+            hit = None
+            if isinstance(x, ast.Attribute) and x.attr == "data" and isinstance(x.ctx, ast.Load):
+                # is the receiver an AuxData?  resolved type, or a loop variable over *.aux_data
+                ts = types.expr_types(x.value, f)
+                is_aux = any(t.name == "AuxData" for t in ts)
+                if not ts and isinstance(x.value, ast.Name):
+                    for lp in walk_no_nested(f.node):
+                        if isinstance(lp, (ast.For, ast.comprehension)) and "aux_data" in unparse(lp.iter) and \
+                                any(isinstance(t, ast.Name) and t.id == x.value.id for t in ast.walk(lp.target)):
+                            is_aux = True
+                if not ts and isinstance(x.value, ast.Subscript) and "aux_data" in unparse(x.value.value):
+                    is_aux = True
+                if not is_aux:
+                    continue
+                hit = x
+            elif isinstance(x, ast.Call) and isinstance(x.func, ast.Attribute) and x.func.attr == "get_data":
+                hit = x
+            if hit is None:
+                continue
+            n += 1
+            allowed = f.cls is not None and f.cls.name == "AuxData" and (
+                f.name in ("_to_protobuf", "__repr__") or (f.cls.props.get("data") is not None and
+                                                          f in (f.cls.props["data"].getter, f.cls.props["data"].setter)))
+            chk.ob("R14.6", "%s:reads-auxdata-value" % f.qualname, allowed, f.loc(hit),
+                   "%s reads AuxData values (%s): a table that the user never read is decoded and will "
+                   "be re-encoded (canonicalised) on save instead of being written back byte for byte"
+                   % (f.qualname, unparse(hit)[:40]), 1)
+    chk.rule("R14.6", "inside the package only AuxData._to_protobuf (re-encode branch), the data "
+             "property itself and __repr__ read a table's value")
+    chk.extra["auxdata_value_reads"] = n
